@@ -14,17 +14,12 @@
 //!    directory, the session catalog / settings / prepared statements and a
 //!    fixed probe query are unchanged, and writing statements are rejected.
 use crate::env::*;
-use arrow_flight::sql::server::FlightSqlService;
-use arrow_flight::sql::{
-    ActionCreatePreparedStatementRequest, CommandPreparedStatementQuery, CommandStatementQuery, TicketStatementQuery,
-};
-use arrow_flight::{Action, FlightDescriptor, Ticket};
-use axum::extract::{Path as AxPath, Query as AxQuery, State};
-use axum::Json;
+use crate::wire;
+use arrow_flight::Ticket;
 use cardinalsin::adaptive_index::{AdaptiveIndexConfig, AdaptiveIndexController};
-use cardinalsin::api::grpc::FlightSqlGrpcService;
 use cardinalsin::api::query::flight_sql::FlightSqlQueryService;
-use cardinalsin::api::query::{prometheus_api as prom, sql_http};
+use axum::extract::{Path as AxPath, Query as AxQuery, State};
+use cardinalsin::api::query::prometheus_api as prom;
 use cardinalsin::api::ApiState;
 use cardinalsin::ingester::{Ingester, IngesterConfig};
 use cardinalsin::query::QueryNode;
@@ -225,7 +220,7 @@ impl Sess {
                 prepared.push(name.to_string());
             }
         }
-        let m0 = match copy.sql("SELECT count(*) AS n, sum(x) AS s FROM m0").await {
+        let m0 = match copy.sql("SELECT count(*) AS n, sum(x) AS s FROM datafusion.public.m0").await {
             Ok(df) => match df.collect().await {
                 Ok(b) => show_batches(&b),
                 Err(_) => "ERR".into(),
@@ -533,18 +528,28 @@ async fn model_plans(sess: &Sess, sql: &str) -> Option<Vec<String>> {
 // --------------------------------------------------------------- interfaces ----
 pub const IFACES: &[(&str, &str)] = &[
     // (implementation entry point, interface of the model)
+    // in-process calls
     ("node.query", "sql"),
-    ("http.sql_post", "sql"),
-    ("http.sql_get", "sql"),
     ("node.query_indexed", "sqlidx"),
     ("node.query_stream", "stream"),
     ("flight.do_get", "sql"),
     ("flight.get_flight_info", "flightinfo"),
     ("flight.create_prepared_statement", "flightprep"),
-    ("grpc.get_flight_info_statement", "flightinfo"),
-    ("grpc.do_get_statement", "sql"),
-    ("grpc.create_prepared_statement+do_get", "flightprepgrpc"),
     ("engine.execute_stream", "execstream"),
+    // the HTTP router of build_http_router served on a loopback port
+    ("route.POST /api/v1/sql", "sql"),
+    ("route.GET /api/v1/sql", "sql"),
+    ("route.WS /api/v1/stream", "sql"),
+    // the Flight SQL gRPC service of run_query_grpc_server on a loopback port, through
+    // arrow-flight's FlightSqlServiceClient (server-side handlers: see GRPC_INVENTORY)
+    ("wire.execute", "flightinfo"),
+    ("wire.execute_update", "sql"),
+    ("wire.prepare_execute", "flightprepgrpc"),
+    ("wire.prepare_execute_update", "flightprepgrpc"),
+    ("wire.prepare_bind_execute", "flightprepgrpc"),
+    ("wire.get_schema", "flightinfo"),
+    ("wire.poll_flight_info", "flightinfo"),
+    ("wire.execute_in_transaction", "flightinfo"),
 ];
 
 fn api_state(sess: &Sess) -> ApiState {
@@ -582,23 +587,43 @@ fn v<T, E: std::fmt::Display>(r: Result<T, E>) -> Verdict {
     }
 }
 
-async fn http_verdict(r: axum::response::Response) -> Verdict {
-    if r.status().is_success() {
-        return Verdict::Served;
-    }
-    let body = axum::body::to_bytes(r.into_body(), 1 << 20).await.unwrap_or_default();
-    verdict_of_error(String::from_utf8_lossy(&body).to_string())
-}
-
 /// Submits `sql` through one interface.
 async fn submit(sess: &Sess, entry: &str, sql: &str) -> Verdict {
     match entry {
         "node.query" | "node.query_indexed" => v(sess.node.query(sql).await),
-        "http.sql_post" => {
-            http_verdict(sql_http::execute_sql(State(api_state(sess)), Json(sql_http::SqlRequest { query: sql.to_string(), format: None })).await).await
+        "route.POST /api/v1/sql" | "route.GET /api/v1/sql" | "route.WS /api/v1/stream" => {
+            let st = api_state(sess);
+            let srv = match wire::HttpServer::start(st.ingester.clone(), st.query_node.clone()).await {
+                Ok(s) => s,
+                Err(e) => panic!("http server: {}", e),
+            };
+            let verdict = if entry.starts_with("route.WS") {
+                v(wire::ws_query(srv.addr, sql, false).await)
+            } else {
+                let client = wire::http_client();
+                let req = if entry.starts_with("route.POST") {
+                    client.post(srv.url("/api/v1/sql")).json(&json!({"query": sql, "format": "json"}))
+                } else {
+                    client.get(srv.url("/api/v1/sql")).query(&[("query", sql), ("format", "csv")])
+                };
+                match wire::http_send(req).await {
+                    Ok((true, _)) => Verdict::Served,
+                    Ok((false, body)) => verdict_of_error(body),
+                    Err(e) => Verdict::Failed(format!("transport: {}", e)),
+                }
+            };
+            srv.stop().await;
+            verdict
         }
-        "http.sql_get" => {
-            http_verdict(sql_http::execute_sql_get(State(api_state(sess)), AxQuery(sql_http::SqlRequest { query: sql.to_string(), format: Some("csv".into()) })).await).await
+        e if e.starts_with("wire.") => {
+            let (srv, mut client) = match wire::GrpcServer::start(sess.node.clone()).await {
+                Ok(x) => x,
+                Err(e) => panic!("grpc server: {}", e),
+            };
+            let r = wire::grpc_sql(&mut client, &e["wire.".len()..], sql).await;
+            drop(client);
+            srv.stop().await;
+            v(r)
         }
         "node.query_stream" => match sess.node.query_stream(sql).await {
             Ok(mut rx) => {
@@ -611,47 +636,6 @@ async fn submit(sess: &Sess, entry: &str, sql: &str) -> Verdict {
         "flight.do_get" => v(FlightSqlQueryService::new(sess.node.clone()).do_get(&Ticket::new(sql.as_bytes().to_vec())).await),
         "flight.get_flight_info" => v(FlightSqlQueryService::new(sess.node.clone()).get_flight_info(sql).await),
         "flight.create_prepared_statement" => v(FlightSqlQueryService::new(sess.node.clone()).create_prepared_statement(sql).await),
-        "grpc.get_flight_info_statement" => {
-            let svc = FlightSqlGrpcService::new(sess.node.clone());
-            v(svc
-                .get_flight_info_statement(
-                    CommandStatementQuery { query: sql.to_string(), transaction_id: None },
-                    tonic::Request::new(FlightDescriptor::new_cmd(Vec::<u8>::new())),
-                )
-                .await
-                .map_err(|s| s.message().to_string()))
-        }
-        "grpc.do_get_statement" => {
-            let svc = FlightSqlGrpcService::new(sess.node.clone());
-            v(svc
-                .do_get_statement(
-                    TicketStatementQuery { statement_handle: sql.as_bytes().to_vec().into() },
-                    tonic::Request::new(Ticket::new(Vec::<u8>::new())),
-                )
-                .await
-                .map(|_| ())
-                .map_err(|s| s.message().to_string()))
-        }
-        "grpc.create_prepared_statement+do_get" => {
-            let svc = FlightSqlGrpcService::new(sess.node.clone());
-            let created = svc
-                .do_action_create_prepared_statement(
-                    ActionCreatePreparedStatementRequest { query: sql.to_string(), transaction_id: None },
-                    tonic::Request::new(Action { r#type: String::new(), body: Default::default() }),
-                )
-                .await;
-            match created {
-                Ok(res) => v(svc
-                    .do_get_prepared_statement(
-                        CommandPreparedStatementQuery { prepared_statement_handle: res.prepared_statement_handle },
-                        tonic::Request::new(Ticket::new(Vec::<u8>::new())),
-                    )
-                    .await
-                    .map(|_| ())
-                    .map_err(|s| s.message().to_string())),
-                Err(s) => verdict_of_error(s.message().to_string()),
-            }
-        }
         "engine.execute_stream" => match sess.node.engine.execute_stream(sql).await {
             Ok(mut stream) => {
                 use futures::StreamExt;
@@ -675,6 +659,8 @@ fn classes_str(c: &BTreeSet<String>) -> String {
 }
 
 pub struct GateRun {
+    /// what changed between the snapshots taken around the call ("" = nothing)
+    pub diff: String,
     pub verdict: Verdict,
     pub impl_out: String,
     pub model_line: Option<String>,
@@ -711,6 +697,7 @@ pub async fn run_gate(case: &Case, entry: &str, miface: &str) -> GateRun {
         oracle.push(format!("{}: a statement that writes or redefines objects was served instead of being rejected with an error", entry));
     }
     GateRun {
+        diff: diff_text(&before, &after),
         verdict,
         impl_out: format!("accepted={} effects={}", if accepted { 1 } else { 0 }, classes_str(&classes)),
         model_line: plans.map(|p| format!("gate {} {}", miface, p.join("|")).trim_end().to_string()),
@@ -758,32 +745,515 @@ fn parse_effects(model_out: &str) -> Option<BTreeSet<String>> {
 }
 
 // ------------------------------------------------------------- Prometheus ----
-const PROM_ENDPOINTS: &[&str] = &["instant", "instant_post", "range", "label_values", "series", "labels"];
+const PROM_ENDPOINTS: &[&str] = &[
+    "GET /api/v1/query",
+    "POST /api/v1/query",
+    "GET /api/v1/query_range",
+    "POST /api/v1/query_range",
+    "GET /api/v1/labels",
+    "POST /api/v1/labels",
+    "GET /api/v1/label/:name/values",
+    "GET /api/v1/series",
+    "POST /api/v1/series",
+    // the router's Query/Form extractors refuse `match[]` lists (400 before the handler runs), so the
+    // handlers that take matchers are also called directly
+    "handler series",
+    "handler labels_get",
+    "handler label_values",
+];
 
+fn pct(s: &str) -> String {
+    s.bytes().map(|b| if b.is_ascii_alphanumeric() { (b as char).to_string() } else { format!("%{:02X}", b) }).collect()
+}
+
+/// Oracle shared by the families that have no model line: state and probe unchanged.
+async fn unchanged_oracle(sess: &Sess, what: &str, before: &Snap, probe_before: &str) -> Vec<String> {
+    let after = sess.snapshot().await;
+    let probe_same = sess.probe().await;
+    let probe_fresh = sess.probe_fresh_node().await;
+    let mut oracle = Vec::new();
+    if *before != after {
+        oracle.push(format!("{} changed state: {}", what, diff_text(before, &after)));
+    }
+    if probe_same != probe_before || probe_fresh != probe_before {
+        oracle.push(format!("{}: probe query answered {} before, {} / {} afterwards", what, probe_before, probe_same, probe_fresh));
+    }
+    oracle
+}
+
+/// A Prometheus route of the real HTTP router with hostile selector text.
 async fn run_prom(endpoint: &str, text: &str) -> (String, Vec<String>) {
     let sess = Sess::new(false, &Pre::Cold).await;
     let probe_before = sess.probe_fresh_node().await;
     let before = sess.snapshot().await;
     let st = api_state(&sess);
-    let status = match endpoint {
-        "instant" => prom::instant_query(State(st), AxQuery(prom::InstantQueryParams { query: text.to_string(), time: Some(1.0) })).await.0.status,
-        "instant_post" => prom::instant_query_post(State(st), axum::Form(prom::InstantQueryParams { query: text.to_string(), time: None })).await.0.status,
-        "range" => prom::range_query(State(st), AxQuery(prom::RangeQueryParams { query: text.to_string(), start: 0.0, end: 1.0, step: 0.1 })).await.0.status,
-        "label_values" => prom::label_values(State(st), AxPath(text.to_string()), AxQuery(prom::LabelValuesQueryParams { matchers: vec![text.to_string()], start: None, end: None })).await.0.status,
-        "series" => prom::series(State(st), AxQuery(prom::SeriesQueryParams { matchers: vec![text.to_string()], start: Some(0.0), end: Some(1.0) })).await.0.status,
-        _ => prom::labels_get(State(st), AxQuery(prom::LabelsQueryParams { matchers: vec![text.to_string()], start: None, end: None })).await.0.status,
+    if let Some(h) = endpoint.strip_prefix("handler ") {
+        let status = match h {
+            "series" => prom::series(State(st), AxQuery(prom::SeriesQueryParams { matchers: vec![text.to_string()], start: Some(0.0), end: Some(1.0) })).await.0.status,
+            "labels_get" => prom::labels_get(State(st), AxQuery(prom::LabelsQueryParams { matchers: vec![text.to_string()], start: None, end: None })).await.0.status,
+            _ => prom::label_values(State(st), AxPath(text.to_string()), AxQuery(prom::LabelValuesQueryParams { matchers: vec![text.to_string()], start: None, end: None })).await.0.status,
+        };
+        let oracle = unchanged_oracle(&sess, &format!("prometheus {}", endpoint), &before, &probe_before).await;
+        return (status, oracle);
+    }
+    let srv = wire::HttpServer::start(st.ingester.clone(), st.query_node.clone()).await.expect("http server");
+    let client = wire::http_client();
+    let (method, path) = endpoint.split_once(' ').unwrap_or(("GET", endpoint));
+    let path = path.replace(":name", &pct(text));
+    let mut params: Vec<(&str, String)> = Vec::new();
+    if path.ends_with("/query") {
+        params.push(("query", text.to_string()));
+        params.push(("time", "1".into()));
+    } else if path.ends_with("/query_range") {
+        params.push(("query", text.to_string()));
+        params.push(("start", "0".into()));
+        params.push(("end", "1".into()));
+        params.push(("step", "0.1".into()));
+    } else {
+        // without match[] the labels / label-values handlers are reached (the path carries the text)
+        if path.ends_with("/series") || text.len() % 2 == 0 {
+            params.push(("match[]", text.to_string()));
+        }
+        params.push(("start", "0".into()));
+        params.push(("end", "1".into()));
+    }
+    let req = if method == "POST" { client.post(srv.url(&path)).form(&params) } else { client.get(srv.url(&path)).query(&params) };
+    let status = match wire::http_send(req).await {
+        Ok((_, body)) => serde_json::from_str::<Value>(&body).ok().and_then(|v| v["status"].as_str().map(|s| s.to_string())).unwrap_or_else(|| "http-error".into()),
+        Err(_) => "transport-error".into(),
     };
-    let after = sess.snapshot().await;
-    let probe_same = sess.probe().await;
-    let probe_fresh = sess.probe_fresh_node().await;
-    let mut oracle = Vec::new();
-    if before != after {
-        oracle.push(format!("prometheus {} changed state: {}", endpoint, diff_text(&before, &after)));
-    }
-    if probe_same != probe_before || probe_fresh != probe_before {
-        oracle.push(format!("prometheus {}: probe query answered {} before, {} / {} afterwards", endpoint, probe_before, probe_same, probe_fresh));
-    }
+    srv.stop().await;
+    let oracle = unchanged_oracle(&sess, &format!("prometheus route {}", endpoint), &before, &probe_before).await;
     (status, oracle)
+}
+
+/// The Flight SQL handlers that carry no statement text (metadata, actions, unsupported commands)
+/// with a hostile pattern, through the real client.
+async fn run_meta(pattern: &str) -> (String, Vec<String>) {
+    let sess = Sess::new(false, &Pre::WarmAll).await;
+    let probe_before = sess.probe_fresh_node().await;
+    let before = sess.snapshot().await;
+    let (srv, mut client) = wire::GrpcServer::start(sess.node.clone()).await.expect("grpc server");
+    let status = wire::grpc_metadata(&mut client, pattern).await;
+    drop(client);
+    srv.stop().await;
+    let oracle = unchanged_oracle(&sess, "flight sql metadata/action handlers", &before, &probe_before).await;
+    (status, oracle)
+}
+
+// --------------------------------------------------- entry-point inventory ----
+/// Server-side handlers of the Flight SQL gRPC service (impl FlightSqlService for
+/// FlightSqlGrpcService, impl FlightService for FlightSqlFlightService) -> how they are driven.
+const GRPC_INVENTORY: &[(&str, &str)] = &[
+    ("do_handshake", "meta: handshake (no statement text)"),
+    ("get_flight_info_statement", "wire.execute / wire.execute_in_transaction / wire.poll_flight_info"),
+    ("get_flight_info_substrait_plan", "meta: substrait_info (plan bytes, answers with a capability error)"),
+    ("get_flight_info_prepared_statement", "wire.prepare_execute / wire.prepare_bind_execute"),
+    ("get_flight_info_catalogs", "meta: catalogs"),
+    ("get_flight_info_schemas", "meta: schemas"),
+    ("get_flight_info_tables", "meta: tables"),
+    ("get_flight_info_table_types", "meta: table_types"),
+    ("get_flight_info_sql_info", "meta: sql_info"),
+    ("get_flight_info_primary_keys", "meta: primary_keys"),
+    ("get_flight_info_exported_keys", "meta: exported_keys"),
+    ("get_flight_info_imported_keys", "meta: imported_keys"),
+    ("get_flight_info_cross_reference", "meta: cross_reference"),
+    ("get_flight_info_xdbc_type_info", "meta: xdbc_type_info"),
+    ("get_flight_info_fallback", "meta: unknown command"),
+    ("do_get_statement", "wire.execute"),
+    ("do_get_prepared_statement", "wire.prepare_execute"),
+    ("do_get_catalogs", "meta: catalogs"),
+    ("do_get_schemas", "meta: schemas (filter patterns)"),
+    ("do_get_tables", "meta: tables (filter patterns)"),
+    ("do_get_table_types", "meta: table_types"),
+    ("do_get_sql_info", "meta: sql_info"),
+    ("do_get_primary_keys", "meta: unreachable without a ticket (get_flight_info answers with an error)"),
+    ("do_get_exported_keys", "meta: unreachable without a ticket"),
+    ("do_get_imported_keys", "meta: unreachable without a ticket"),
+    ("do_get_cross_reference", "meta: unreachable without a ticket"),
+    ("do_get_xdbc_type_info", "meta: xdbc_type_info"),
+    ("do_get_fallback", "meta: unknown ticket"),
+    ("do_put_statement_update", "wire.execute_update"),
+    ("do_put_statement_ingest", "meta: statement_ingest (table name + batches, answers with a capability error)"),
+    ("do_put_prepared_statement_query", "wire.prepare_bind_execute"),
+    ("do_put_prepared_statement_update", "wire.prepare_execute_update"),
+    ("do_put_substrait_plan", "meta: substrait_put"),
+    ("do_put_fallback", "meta: unknown_put"),
+    ("do_action_create_prepared_statement", "wire.prepare_*"),
+    ("do_action_close_prepared_statement", "wire.prepare_* (close) / meta"),
+    ("do_action_create_prepared_substrait_plan", "meta: CreatePreparedSubstraitPlan"),
+    ("do_action_begin_transaction", "wire.execute_in_transaction"),
+    ("do_action_end_transaction", "wire.execute_in_transaction / meta"),
+    ("do_action_begin_savepoint", "meta: BeginSavepoint"),
+    ("do_action_end_savepoint", "meta: EndSavepoint"),
+    ("do_action_cancel_query", "meta: CancelQuery"),
+    ("do_action_fallback", "meta: NoSuchAction"),
+    ("do_exchange_fallback", "meta: do_exchange"),
+    ("register_sql_info", "not a request handler"),
+    // impl FlightService for FlightSqlFlightService
+    ("handshake", "meta: handshake"),
+    ("list_flights", "meta: list_flights (fixed statement)"),
+    ("get_flight_info", "every wire.* get_flight_info call"),
+    ("poll_flight_info", "wire.poll_flight_info"),
+    ("get_schema", "wire.get_schema"),
+    ("do_get", "every wire.* do_get call"),
+    ("do_put", "every wire.* do_put call"),
+    ("do_exchange", "meta: do_exchange"),
+    ("do_action", "every wire.* action"),
+    ("list_actions", "meta: list_actions"),
+];
+
+/// routes of build_http_router -> how they are driven
+const ROUTE_INVENTORY: &[(&str, &str)] = &[
+    ("get /health", "not a query interface"),
+    ("get /ready", "not a query interface"),
+    ("post /api/v1/sql", "route.POST /api/v1/sql"),
+    ("get /api/v1/sql", "route.GET /api/v1/sql"),
+    ("get /api/v1/query", "prometheus family"),
+    ("post /api/v1/query", "prometheus family"),
+    ("get /api/v1/query_range", "prometheus family"),
+    ("post /api/v1/query_range", "prometheus family"),
+    ("get /api/v1/labels", "prometheus family"),
+    ("post /api/v1/labels", "prometheus family"),
+    ("get /api/v1/label/:name/values", "prometheus family"),
+    ("get /api/v1/series", "prometheus family"),
+    ("post /api/v1/series", "prometheus family"),
+    ("post /api/v1/write", "ingest interface (remote write), not a query interface"),
+    ("get /api/v1/stream", "route.WS /api/v1/stream"),
+];
+
+/// functions that receive statement text (a parameter named sql / query of type &str), per file
+const SQL_FN_INVENTORY: &[(&str, &[&str])] = &[
+    ("src/query/engine.rs", &["plan_user_sql", "plan", "execute", "execute_with_indexes", "execute_stream", "extract_time_range", "extract_column_predicates", "analyze", "prepare"]),
+    ("src/query/mod.rs", &["query", "query_for_tenant", "query_stream", "query_stream_filtered"]),
+    ("src/query/streaming.rs", &["execute", "from_sql"]),
+    ("src/api/query/flight_sql.rs", &["get_flight_info", "get_flight_info_with_ticket", "analyze_schema", "execute_batches", "create_prepared_statement"]),
+    ("src/api/query/sql_http.rs", &[]),
+    ("src/api/query/streaming.rs", &[]),
+    ("src/api/query/prometheus_api.rs", &[]),
+    ("src/api/grpc.rs", &["query_string_rows", "make_statement_ticket"]),
+];
+
+/// Compares the entry points that exist in the source with what this harness drives.  Anything
+/// unknown that takes statement text is reported: the harness must not silently skip a route.
+fn inventory_problems() -> Vec<String> {
+    let repo = std::env::var("VERIF_REPO").unwrap_or_else(|_| "/repo".to_string());
+    let read = |rel: &str| std::fs::read_to_string(format!("{}/{}", repo, rel)).unwrap_or_default();
+    let mut problems = Vec::new();
+    // 1. gRPC handlers
+    let grpc = read("src/api/grpc.rs");
+    if grpc.is_empty() {
+        problems.push("cannot read src/api/grpc.rs".to_string());
+    }
+    let mut in_impl = false;
+    for line in grpc.lines() {
+        if line.starts_with("impl FlightSqlService for FlightSqlGrpcService") || line.starts_with("impl FlightService for FlightSqlFlightService") {
+            in_impl = true;
+            continue;
+        }
+        if line.starts_with('}') {
+            in_impl = false;
+        }
+        if in_impl {
+            if let Some(rest) = line.trim_start().strip_prefix("async fn ") {
+                let name: String = rest.chars().take_while(|c| c.is_alphanumeric() || *c == '_').collect();
+                if !GRPC_INVENTORY.iter().any(|(n, _)| *n == name) {
+                    problems.push(format!("Flight SQL handler `{}` (src/api/grpc.rs) is not in the harness's inventory: it is not driven", name));
+                }
+            }
+        }
+    }
+    // 2. HTTP routes
+    let api = read("src/api/mod.rs");
+    let mut rest = api.as_str();
+    let mut seen_routes = 0;
+    while let Some(i) = rest.find(".route(\"") {
+        rest = &rest[i + 8..];
+        let path: String = rest.chars().take_while(|c| *c != '"').collect();
+        let after = &rest[path.len()..];
+        let method: String = after.trim_start_matches(|c: char| c == '"' || c == ',' || c.is_whitespace()).chars().take_while(|c| c.is_alphanumeric()).collect();
+        seen_routes += 1;
+        let key = format!("{} {}", method.to_lowercase(), path);
+        if !ROUTE_INVENTORY.iter().any(|(r, _)| *r == key) {
+            problems.push(format!("HTTP route `{}` (src/api/mod.rs) is not in the harness's inventory: it is not driven", key));
+        }
+    }
+    if seen_routes == 0 {
+        problems.push("no routes found in src/api/mod.rs".to_string());
+    }
+    // 3. functions taking statement text
+    for (rel, known) in SQL_FN_INVENTORY {
+        let txt = read(rel);
+        if txt.is_empty() {
+            problems.push(format!("cannot read {}", rel));
+            continue;
+        }
+        let code = match txt.find("#[cfg(test)]\nmod tests") {
+            Some(i) => &txt[..i],
+            None => &txt[..],
+        };
+        let mut rest = code;
+        while let Some(i) = rest.find("fn ") {
+            let before_ok = i == 0 || !rest.as_bytes()[i - 1].is_ascii_alphanumeric() && rest.as_bytes()[i - 1] != b'_';
+            rest = &rest[i + 3..];
+            if !before_ok {
+                continue;
+            }
+            let name: String = rest.chars().take_while(|c| c.is_alphanumeric() || *c == '_').collect();
+            if name.is_empty() {
+                continue;
+            }
+            // parameter list up to the matching ')'
+            let open = match rest.find('(') {
+                Some(o) => o,
+                None => continue,
+            };
+            let mut depth = 0i32;
+            let mut end = open;
+            for (k, ch) in rest[open..].char_indices() {
+                if ch == '(' {
+                    depth += 1;
+                } else if ch == ')' {
+                    depth -= 1;
+                    if depth == 0 {
+                        end = open + k;
+                        break;
+                    }
+                }
+            }
+            let params: String = rest[open..end].split_whitespace().collect::<Vec<_>>().join(" ");
+            let takes_sql = ["sql: &str", "query: &str", "sql: String", "query: String", "statement: &str", "stmt: &str"].iter().any(|p| params.contains(p));
+            if takes_sql && !known.contains(&name.as_str()) {
+                problems.push(format!("function `{}` in {} takes statement text and is not in the harness's inventory: no entry point is known to reach it", name, rel));
+            }
+        }
+    }
+    // 4. the engine hands text to DataFusion in exactly one place
+    let engine = read("src/query/engine.rs");
+    let code = match engine.find("#[cfg(test)]\nmod tests") {
+        Some(i) => &engine[..i],
+        None => &engine[..],
+    };
+    let n_opts = code.matches(".sql_with_options(").count();
+    let n_plain = code.matches(".sql(").count() + code.matches(".execute_logical_plan(").count() + code.matches(".create_logical_plan(").count();
+    if n_opts != 1 || n_plain != 0 {
+        problems.push(format!("src/query/engine.rs hands statement text to the embedded engine in {} gated and {} ungated places (expected 1 and 0)", n_opts, n_plain));
+    }
+    problems
+}
+
+// --------------------------------------------------------- lexical variants ----
+#[derive(Clone, Debug, PartialEq)]
+enum Tok {
+    Word(String),
+    Quoted(String),
+    Sym(String),
+}
+
+fn tokenize(sql: &str) -> Vec<(Tok, bool)> {
+    // (token, whitespace before it)
+    let cs: Vec<char> = sql.chars().collect();
+    let mut out = Vec::new();
+    let mut i = 0;
+    let mut space = false;
+    while i < cs.len() {
+        let c = cs[i];
+        if c.is_whitespace() {
+            space = true;
+            i += 1;
+            continue;
+        }
+        if c == '\'' || c == '"' {
+            let q = c;
+            let mut j = i + 1;
+            while j < cs.len() {
+                if cs[j] == q {
+                    if j + 1 < cs.len() && cs[j + 1] == q {
+                        j += 2;
+                        continue;
+                    }
+                    break;
+                }
+                j += 1;
+            }
+            let end = (j + 1).min(cs.len());
+            out.push((Tok::Quoted(cs[i..end].iter().collect()), space));
+            i = end;
+        } else if c.is_alphanumeric() || c == '_' || c == '$' || c == '{' {
+            let mut j = i;
+            while j < cs.len() && (cs[j].is_alphanumeric() || "_.$:{}".contains(cs[j])) {
+                j += 1;
+            }
+            out.push((Tok::Word(cs[i..j].iter().collect()), space));
+            i = j;
+        } else if "<>=!|".contains(c) {
+            let mut j = i;
+            while j < cs.len() && "<>=!|".contains(cs[j]) {
+                j += 1;
+            }
+            out.push((Tok::Sym(cs[i..j].iter().collect()), space));
+            i = j;
+        } else {
+            out.push((Tok::Sym(c.to_string()), space));
+            i += 1;
+        }
+        space = false;
+    }
+    out
+}
+
+/// The same statement written differently: comments and odd whitespace between tokens, keywords
+/// and identifiers in other letter case, leading comments, trailing semicolons.
+fn lexical_variant(sql: &str, rng: &mut Rng) -> String {
+    let toks = tokenize(sql);
+    let mut out = String::new();
+    match rng.below(6) {
+        0 => out.push_str("/* lead */ "),
+        1 => out.push_str("-- lead\n"),
+        2 => out.push_str("\n\t "),
+        _ => {}
+    }
+    let flip = rng.below(4); // 0: keep, 1: lower, 2: upper, 3: per word
+    for (k, (t, space)) in toks.iter().enumerate() {
+        if k > 0 {
+            let sep = if *space {
+                *rng.pick(&[" ", " ", "  ", "\n", "\t", " /* c */ ", "/**/", " -- c\n", "\n\n", " /* ANALYZE */ ", "\r\n"])
+            } else {
+                *rng.pick(&["", "", "", " ", "/* c */"])
+            };
+            out.push_str(sep);
+        }
+        match t {
+            Tok::Word(w) => {
+                let plain = w.chars().all(|c| c.is_ascii_alphabetic() || c == '_');
+                let w2 = if !plain {
+                    w.clone()
+                } else {
+                    match if flip == 3 { 1 + rng.below(3) } else { flip } {
+                        1 => w.to_lowercase(),
+                        2 => w.to_uppercase(),
+                        3 => w.chars().enumerate().map(|(i, c)| if i % 2 == 0 { c.to_ascii_uppercase() } else { c.to_ascii_lowercase() }).collect(),
+                        _ => w.clone(),
+                    }
+                };
+                out.push_str(&w2);
+            }
+            Tok::Quoted(q) => out.push_str(q),
+            Tok::Sym(s) => out.push_str(s),
+        }
+    }
+    match rng.below(8) {
+        0 => out.push(';'),
+        1 => out.push_str(" ;"),
+        2 => out.push_str("; -- bye"),
+        3 => out.push_str(" /* end */"),
+        4 => out.push_str(";\n"),
+        _ => {}
+    }
+    out
+}
+
+/// Splits `EXPLAIN [ANALYZE] [VERBOSE] <inner>` written in any lexical form into (wrapper words, inner).
+fn strip_explain(sql: &str) -> (Vec<String>, String) {
+    // remove comments first
+    let mut clean = String::new();
+    let cs: Vec<char> = sql.chars().collect();
+    let mut i = 0;
+    while i < cs.len() {
+        if cs[i] == '\'' {
+            let mut j = i + 1;
+            while j < cs.len() && cs[j] != '\'' {
+                j += 1;
+            }
+            clean.extend(&cs[i..(j + 1).min(cs.len())]);
+            i = j + 1;
+        } else if cs[i] == '/' && i + 1 < cs.len() && cs[i + 1] == '*' {
+            let mut j = i + 2;
+            while j + 1 < cs.len() && !(cs[j] == '*' && cs[j + 1] == '/') {
+                j += 1;
+            }
+            clean.push(' ');
+            i = j + 2;
+        } else if cs[i] == '-' && i + 1 < cs.len() && cs[i + 1] == '-' {
+            while i < cs.len() && cs[i] != '\n' {
+                i += 1;
+            }
+            clean.push(' ');
+        } else {
+            clean.push(cs[i]);
+            i += 1;
+        }
+    }
+    let mut words = Vec::new();
+    let mut rest = clean.trim_start().to_string();
+    loop {
+        let w: String = rest.chars().take_while(|c| c.is_ascii_alphabetic()).collect();
+        let up = w.to_uppercase();
+        if up == "EXPLAIN" || (up == "ANALYZE" || up == "VERBOSE") && !words.is_empty() {
+            words.push(up);
+            rest = rest[w.len()..].trim_start().to_string();
+        } else {
+            break;
+        }
+    }
+    (words, rest.trim_end().trim_end_matches(';').to_string())
+}
+
+/// Violation search from a disagreement "the interface let a statement through that the model
+/// refuses, without a visible effect": the same wrapper shape and route with statements that do
+/// write, and lexical variants of all of them.  Returns the first statement for which the
+/// oracle fails, with the oracle's text.
+fn escalate(rt: &tokio::runtime::Runtime, case: &Case, entry: &str, miface: &str, rng: &mut Rng, budget: usize) -> Option<(Case, Vec<String>)> {
+    let (_, inner) = strip_explain(&case.sql);
+    let c1 = format!("s3://{}/{}", BUCKET, chunk_path(1));
+    let writers = vec![
+        inner.clone(),
+        format!("COPY (SELECT 1 AS x) TO '{}' STORED AS PARQUET", c1),
+        "COPY (SELECT 1 AS x) TO 's3://cardinalsin-data/default/escalated.parquet' STORED AS PARQUET".to_string(),
+        "DROP TABLE metrics".to_string(),
+        "SET datafusion.catalog.default_schema = 'scratch'".to_string(),
+        "INSERT INTO m0 VALUES (2)".to_string(),
+        "CREATE OR REPLACE VIEW metrics AS SELECT 1 AS x".to_string(),
+    ];
+    let shapes: Vec<Box<dyn Fn(&str) -> String>> = vec![
+        Box::new(|i| i.to_string()),
+        Box::new(|i| format!("EXPLAIN ANALYZE {}", i)),
+        Box::new(|i| format!("EXPLAIN /* c */ ANALYZE {}", i)),
+        Box::new(|i| format!("EXPLAIN -- c\nANALYZE {}", i)),
+        Box::new(|i| format!("EXPLAIN\tANALYZE {}", i)),
+        Box::new(|i| format!("EXPLAIN/**/ANALYZE {}", i)),
+        Box::new(|i| format!("explain analyze {}", i)),
+        Box::new(|i| format!("EXPLAIN VERBOSE {}", i)),
+        Box::new(|i| format!("EXPLAIN ANALYZE VERBOSE {}", i)),
+        Box::new(|i| format!("/* c */ {}", i)),
+        Box::new(|i| format!("{};", i)),
+    ];
+    let mut tried = 0usize;
+    let mut candidates: Vec<String> = Vec::new();
+    for w in &writers {
+        for sh in &shapes {
+            candidates.push(sh(w));
+        }
+    }
+    for _ in 0..20 {
+        let base = rng.pick(&candidates).clone();
+        candidates.push(lexical_variant(&base, rng));
+    }
+    for sql in candidates {
+        if tried >= budget {
+            break;
+        }
+        tried += 1;
+        let c = Case { sql, kind: format!("escalated.{}", case.kind), must_reject: false, pre: case.pre.clone(), exact: false };
+        let g = match csv_common::catch(std::panic::AssertUnwindSafe(|| rt.block_on(run_gate(&c, entry, miface)))) {
+            Ok(g) => g,
+            Err(_) => continue,
+        };
+        if !g.oracle.is_empty() {
+            return Some((c, g.oracle));
+        }
+    }
+    None
 }
 
 fn hostile_promql(rng: &mut Rng) -> String {
@@ -883,7 +1353,7 @@ fn wrap(rng: &mut Rng, stmt: &str, report: &mut Report) -> (String, bool) {
     }
 }
 
-fn gen_case(rng: &mut Rng, n: u64, report: &mut Report) -> Case {
+fn gen_base_case(rng: &mut Rng, n: u64, report: &mut Report) -> Case {
     let pre = match rng.below(4) {
         0 => Pre::WarmOne,
         1 => Pre::WarmAll,
@@ -951,7 +1421,6 @@ fn gen_case(rng: &mut Rng, n: u64, report: &mut Report) -> Case {
         let (stmt, kind, writes) = rng.pick(&dmls).clone();
         let (sql, runs) = wrap(rng, &stmt, report);
         report.bump(&format!("kind.dml.{}", kind));
-        let mem = kind.starts_with("insert.mem");
         // the source query of insert.mem_select may fail on its own (e.g. a type error against the
         // placeholder table of a cold node), so its effect is only required to be a subset
         return Case { sql, kind: format!("dml.{}", kind), must_reject: writes && runs && kind == "insert.mem", pre, exact: kind == "insert.mem" && runs };
@@ -1003,7 +1472,7 @@ fn gen_case(rng: &mut Rng, n: u64, report: &mut Report) -> Case {
         for j in 0..k {
             let mut r = rng.fork();
             let mut scratch = Report::new("scratch");
-            let c = gen_case(&mut r, n * 10 + j as u64, &mut scratch);
+            let c = gen_base_case(&mut r, n * 10 + j as u64, &mut scratch);
             if !c.sql.contains(';') {
                 parts.push(c.sql);
             } else {
@@ -1014,9 +1483,27 @@ fn gen_case(rng: &mut Rng, n: u64, report: &mut Report) -> Case {
         return Case { sql: parts.join("; "), kind: "multi".into(), must_reject: true, pre, exact: false };
     }
     // text that does not parse / plan
-    let junk = ["", ";", "SELEC 1", "COPY", "DROP", "TRUNCATE TABLE metrics", "ALTER TABLE metrics ADD COLUMN z INT", "EXPLAIN EXPLAIN SELECT 1", "SELECT * FROM nosuch", "INSERT INTO nosuch VALUES (1)", "COPY nosuch TO 's3://cardinalsin-data/default/x.parquet'", "/* DROP TABLE metrics */", "-- COPY"];
+    let junk = ["EXPLAIN (FORMAT JSON) SELECT 1", "EXPLAIN (ANALYZE) COPY (SELECT 1 AS x) TO 's3://cardinalsin-data/default/x.parquet'", "EXPLAIN FORMAT JSON SELECT 1", "EXPLAIN ANALYZE", "", ";", "SELEC 1", "COPY", "DROP", "TRUNCATE TABLE metrics", "ALTER TABLE metrics ADD COLUMN z INT", "EXPLAIN EXPLAIN SELECT 1", "SELECT * FROM nosuch", "INSERT INTO nosuch VALUES (1)", "COPY nosuch TO 's3://cardinalsin-data/default/x.parquet'", "/* DROP TABLE metrics */", "-- COPY"];
     report.bump("kind.unplannable");
     Case { sql: rng.pick(&junk).to_string(), kind: "junk".into(), must_reject: false, pre, exact: false }
+}
+
+/// A statement of a random kind, half of the time rewritten into a lexical variant (comments,
+/// whitespace, letter case, leading comment, trailing semicolon) -- the plan, and therefore the
+/// model's verdict, is taken from the planner for the text as written.
+fn gen_case(rng: &mut Rng, n: u64, report: &mut Report) -> Case {
+    let mut c = gen_base_case(rng, n, report);
+    if c.kind != "junk" && rng.chance(1, 2) {
+        c.sql = lexical_variant(&c.sql, rng);
+        report.bump("lexical.variant");
+        if c.sql.contains("/*") || c.sql.contains("--") {
+            report.bump("lexical.with_comments");
+        }
+        // a trailing `;` keeps a single statement single; the multi family stays multi
+    } else {
+        report.bump("lexical.as_generated");
+    }
+    c
 }
 
 /// Fixed cases that always run first: the witnesses reproduced on the code before
@@ -1052,6 +1539,17 @@ fn corpus() -> Vec<Case> {
         c("SELECT count(*) FROM metrics WHERE timestamp >= 0 AND timestamp <= 1000", "readonly", false, Pre::Cold, true),
         c("EXPLAIN ANALYZE SELECT count(*) FROM metrics", "readonly.analyze", false, Pre::WarmAll, true),
         c("DESCRIBE metrics", "readonly.describe", false, Pre::Cold, true),
+        // lexical forms of EXPLAIN ANALYZE <writing statement>: a route that classifies statements by
+        // their first words must not be fooled by comments, case or whitespace
+        c(&format!("EXPLAIN /* c */ ANALYZE COPY (SELECT 1 AS x) TO '{}' STORED AS PARQUET", c1), "lex.explain_comment_analyze.copy.chunk", true, Pre::WarmAll, true),
+        c("EXPLAIN -- c\nANALYZE COPY (SELECT 1 AS x) TO 's3://cardinalsin-data/default/evil6.parquet' STORED AS PARQUET", "lex.explain_linecomment_analyze.copy", true, Pre::Cold, true),
+        c("explain\tanalyze copy (select 1 as x) to 's3://cardinalsin-data/default/evil7.parquet' stored as parquet", "lex.lowercase_tab.copy", true, Pre::Cold, true),
+        c("/* EXPLAIN */ COPY (SELECT 1 AS x) TO 's3://cardinalsin-data/default/evil8.parquet' STORED AS PARQUET", "lex.leading_comment.copy", true, Pre::Cold, true),
+        c("EXPLAIN/**/ANALYZE/**/VERBOSE INSERT INTO m0 VALUES (2)", "lex.explain_analyze_verbose.insert", true, Pre::Cold, true),
+        c("EXPLAIN VERBOSE COPY (SELECT 1 AS x) TO 's3://cardinalsin-data/default/evil9.parquet' STORED AS PARQUET", "lex.explain_verbose.copy", false, Pre::Cold, true),
+        c("SET datafusion.catalog.default_schema = 'scratch'", "set.default_schema", true, Pre::WarmAll, true),
+        c("set /* c */ datafusion.catalog.default_schema = 'scratch';", "lex.set.default_schema", true, Pre::Cold, true),
+        c("-- lead\nDROP TABLE metrics;", "lex.leading_linecomment.drop", true, Pre::Cold, true),
         c("SELECT * FROM metrics WHERE host IN (SELECT host FROM metrics)", "readonly.subquery", false, Pre::Cold, true),
     ]
 }
@@ -1068,10 +1566,20 @@ pub fn main(args: Args) {
     if let Some(path) = &args.replay {
         let txt = std::fs::read_to_string(path).expect("replay file");
         let v: Value = serde_json::from_str(&txt).expect("replay json");
-        let v = if v.get("sql").is_some() || v.get("promql").is_some() { v } else { v["case"].clone() };
+        let v = if v.get("sql").is_some() || v.get("promql").is_some() || v.get("flight_metadata_pattern").is_some() || v.get("inventory").is_some() { v } else { v["case"].clone() };
+        if v.get("inventory").is_some() {
+            let pbs = inventory_problems();
+            println!("entry-point inventory problems: {:#?}", pbs);
+            std::process::exit(if pbs.is_empty() { 0 } else { 1 });
+        }
+        if let Some(pat) = v.get("flight_metadata_pattern").and_then(|p| p.as_str()) {
+            let (status, oracle) = rt.block_on(run_meta(pat));
+            println!("flight sql metadata handlers: {}\noracle failures: {:?}", status, oracle);
+            std::process::exit(if oracle.is_empty() { 0 } else { 1 });
+        }
         let mut failed = false;
         if v.get("promql").is_some() {
-            let (status, oracle) = rt.block_on(run_prom(v["endpoint"].as_str().unwrap_or("instant"), v["promql"].as_str().unwrap_or("")));
+            let (status, oracle) = rt.block_on(run_prom(v["endpoint"].as_str().unwrap_or("GET /api/v1/query"), v["promql"].as_str().unwrap_or("")));
             println!("prometheus {} status={} oracle failures: {:?}", v["endpoint"], status, oracle);
             std::process::exit(if oracle.is_empty() { 0 } else { 1 });
         }
@@ -1096,15 +1604,46 @@ pub fn main(args: Args) {
         std::process::exit(if failed { 1 } else { 0 });
     }
 
-    let n_random = if args.thorough() { 1500 } else { 130 };
+    // ---- entry-point inventory: every handler / route / function that takes statement text must be known
+    for pb in inventory_problems() {
+        report.disagreement(json!({
+            "correspondence": "entry points present in the source vs entry points this harness drives",
+            "case": {"inventory": pb}, "impl": pb, "model": "every entry point that takes statement text is driven",
+            "shrunk": {"inventory": pb}, "oracle_failed": false,
+        }));
+        report.bump("inventory.unknown_entry_point");
+    }
+
+    let n_random = if args.thorough() { 1200 } else { 110 };
+    let budget_secs: u64 = args.get("budget").and_then(|b| b.parse().ok()).unwrap_or(if args.thorough() { 2700 } else { 420 });
+    let started = std::time::Instant::now();
+    // a breaking change makes most cases fail: stop after a handful of distinct problem cases
+    const MAX_PROBLEM_CASES: usize = 10;
+    const MAX_ESCALATIONS: usize = 4;
+    let mut problem_cases = 0usize;
+    let mut escalations = 0usize;
     let mut rng = Rng::new(args.seed);
     let mut cases: Vec<(String, Case)> = corpus().into_iter().map(|c| ("corpus".to_string(), c)).collect();
     for i in 0..n_random {
         let mut r = rng.fork();
         cases.push(("random".to_string(), gen_case(&mut r, 100 + i as u64, &mut report)));
     }
+    let mut esc_rng = rng.fork();
+    let mut truncated = None;
 
-    for (origin, case) in &cases {
+    for (idx, (origin, case)) in cases.iter().enumerate() {
+        if problem_cases >= MAX_PROBLEM_CASES {
+            truncated = Some(format!("stopped after {} cases: {} cases with disagreements or oracle violations", idx, problem_cases));
+            break;
+        }
+        if started.elapsed().as_secs() > budget_secs {
+            truncated = Some(format!("stopped after {} of {} cases: time budget of {} s used up", idx, cases.len(), budget_secs));
+            break;
+        }
+        if idx % 20 == 19 {
+            report.write(&args.out); // incremental: an interrupted run still leaves a report
+        }
+        let mut case_has_problem = false;
         report.bump(&format!("origin.{}", origin));
         report.bump(&format!("pre.{}", case.pre.name()));
         // ---- engine semantics: plain ctx.sql + collect vs the model's `effects`
@@ -1132,6 +1671,7 @@ pub fn main(args: Args) {
                     None => false,
                 };
                 if !ok {
+                    case_has_problem = true;
                     report.disagreement(json!({
                         "correspondence": "effects of a statement under plain ctx.sql+collect: DataFusion (observed) vs Model/SqlGate.v effects",
                         "case": case.to_json(), "impl": raw.impl_out, "model": m, "plan": line, "detail": raw.detail,
@@ -1153,11 +1693,13 @@ pub fn main(args: Args) {
         for (entry, miface) in IFACES {
             let g = match csv_common::catch(std::panic::AssertUnwindSafe(|| rt.block_on(run_gate(case, entry, miface)))) {
                 Ok(g) => g,
-                Err(msg) => GateRun { verdict: Verdict::Failed("panic".into()), impl_out: format!("PANIC {}", msg), model_line: None, oracle: vec![] },
+                Err(msg) => GateRun { diff: String::new(), verdict: Verdict::Failed("panic".into()), impl_out: format!("PANIC {}", msg), model_line: None, oracle: vec![] },
             };
             if g.impl_out.starts_with("PANIC") {
                 report.bump("gate.panic");
-                report.notes.push(format!("{} panicked on {:?}: {}", entry, case.sql, g.impl_out));
+                if report.notes.len() < 20 {
+                    report.notes.push(format!("{} panicked on {:?}: {}", entry, case.sql, g.impl_out.chars().take(300).collect::<String>()));
+                }
                 continue;
             }
             report.impl_runs += 1;
@@ -1167,33 +1709,62 @@ pub fn main(args: Args) {
                 Verdict::Refused(_) => report.bump("gate.refused"),
                 Verdict::Failed(_) => report.bump("gate.failed_on_its_own"),
             }
+            let case_json = json!({"sql": case.sql, "kind": case.kind, "must_reject": case.must_reject, "pre": case.pre.name(), "exact": case.exact, "entry": entry});
+            let mut disagrees = false;
+            let mut let_through = false;
             if let Some(line) = &g.model_line {
                 let (differs, m) = model.differs(line, &g.impl_out);
                 if differs {
+                    disagrees = true;
+                    let_through = g.impl_out.starts_with("accepted=1") && m.starts_with("accepted=0");
                     report.disagreement(json!({
                         "correspondence": format!("{} vs Model/SqlGate.v submit {}", entry, miface),
-                        "case": {"sql": case.sql, "kind": case.kind, "must_reject": case.must_reject, "pre": case.pre.name(), "exact": case.exact, "entry": entry},
-                        "impl": g.impl_out, "model": m, "plan": line,
-                        "shrunk": case.to_json(), "oracle_failed": !g.oracle.is_empty(),
+                        "case": case_json, "impl": g.impl_out, "model": m, "plan": line,
+                        // the oracle's verdict on this very statement
+                        "oracle": g.oracle, "state_change_observed": g.diff, "verdict": format!("{:?}", g.verdict),
+                        "shrunk": case_json, "oracle_failed": !g.oracle.is_empty(),
                     }));
                 }
             } else if g.verdict == Verdict::Served || !g.impl_out.ends_with("effects=") {
                 // no plan exists for the text (parse / planning error): it cannot be served
+                disagrees = true;
+                let_through = g.verdict == Verdict::Served;
                 report.disagreement(json!({
                     "correspondence": format!("{}: text without a plan must be rejected without effect", entry),
-                    "case": case.to_json(), "impl": g.impl_out, "model": "accepted=0 effects=",
-                    "shrunk": case.to_json(), "oracle_failed": !g.oracle.is_empty(),
+                    "case": case_json, "impl": g.impl_out, "model": "accepted=0 effects=",
+                    "oracle": g.oracle, "state_change_observed": g.diff, "verdict": format!("{:?}", g.verdict),
+                    "shrunk": case_json, "oracle_failed": !g.oracle.is_empty(),
                 }));
             }
             for o in &g.oracle {
-                report.oracle_violation("", o, json!({"sql": case.sql, "kind": case.kind, "must_reject": case.must_reject, "pre": case.pre.name(), "exact": case.exact, "entry": entry}));
+                report.oracle_violation("", o, case_json.clone());
             }
+            if disagrees || !g.oracle.is_empty() {
+                case_has_problem = true;
+            }
+            // the tie broke without a visible effect: look for a statement of the same shape that writes
+            if disagrees && let_through && g.oracle.is_empty() && escalations < MAX_ESCALATIONS {
+                escalations += 1;
+                report.bump("escalation.searches");
+                if let Some((c2, oracle)) = escalate(&rt, case, entry, miface, &mut esc_rng, 60) {
+                    report.bump("escalation.found_failing_input");
+                    for o in &oracle {
+                        report.oracle_violation("", o, json!({"sql": c2.sql, "kind": c2.kind, "must_reject": c2.must_reject, "pre": c2.pre.name(), "exact": c2.exact, "entry": entry, "found_from": case.sql}));
+                    }
+                }
+            }
+        }
+        if case_has_problem {
+            problem_cases += 1;
         }
     }
 
-    // ---- Prometheus endpoints: hostile selector text, oracle only
-    let n_prom = if args.thorough() { 300 } else { 40 };
+    // ---- Prometheus routes: hostile selector text, oracle only
+    let n_prom = if args.thorough() { 300 } else { 48 };
     for i in 0..n_prom {
+        if problem_cases >= MAX_PROBLEM_CASES || started.elapsed().as_secs() > budget_secs {
+            break;
+        }
         let mut r = rng.fork();
         let text = hostile_promql(&mut r);
         let ep = PROM_ENDPOINTS[i % PROM_ENDPOINTS.len()];
@@ -1207,9 +1778,41 @@ pub fn main(args: Args) {
         for o in &oracle {
             report.oracle_violation("", o, json!({"promql": text, "endpoint": ep}));
         }
+        if !oracle.is_empty() {
+            problem_cases += 1;
+        }
     }
 
+    // ---- Flight SQL handlers without statement text (metadata, actions, unsupported commands)
+    let n_meta = if args.thorough() { 40 } else { 6 };
+    for i in 0..n_meta {
+        if problem_cases >= MAX_PROBLEM_CASES || started.elapsed().as_secs() > budget_secs {
+            break;
+        }
+        let mut r = rng.fork();
+        let pattern = if i == 0 { "%".to_string() } else { hostile_promql(&mut r) };
+        let (status, oracle) = match csv_common::catch(std::panic::AssertUnwindSafe(|| rt.block_on(run_meta(&pattern)))) {
+            Ok(x) => x,
+            Err(msg) => (format!("panic:{}", msg.chars().take(60).collect::<String>()), vec![]),
+        };
+        report.impl_runs += 1;
+        report.case(Some(&format!("meta|{}", pattern)));
+        report.bump("flight_metadata.runs");
+        if i == 0 {
+            report.notes.push(format!("flight sql metadata/action handlers (pattern %): {}", status));
+        }
+        for o in &oracle {
+            report.oracle_violation("", o, json!({"flight_metadata_pattern": pattern}));
+        }
+        if !oracle.is_empty() {
+            problem_cases += 1;
+        }
+    }
+
+    if let Some(t) = truncated {
+        report.notes.push(t);
+    }
     report.notes.push(format!("model calls: {}", model.calls));
-    report.notes.push("interfaces driven in-process: QueryNode::query (plain and with an adaptive-index controller), sql_http POST/GET handlers, QueryNode::query_stream (StreamingQueryExecutor), FlightSqlQueryService {do_get, get_flight_info, create_prepared_statement}, FlightSqlGrpcService {get_flight_info_statement, do_get_statement, do_action_create_prepared_statement + do_get_prepared_statement}, Prometheus handlers {instant GET/POST, range, label values, series, labels}; not driven: the websocket upgrade handler and do_put_statement_update (both call QueryNode::query with the text unchanged)".into());
+    report.notes.push("driven: QueryNode::query (plain / adaptive-index), QueryNode::query_stream, FlightSqlQueryService {do_get, get_flight_info, create_prepared_statement}, QueryEngine::execute_stream; the HTTP router of build_http_router on a loopback port (POST and GET /api/v1/sql, the websocket route /api/v1/stream, all Prometheus routes); the Flight SQL gRPC service of run_query_grpc_server on a loopback port through FlightSqlServiceClient (execute, execute_update, prepare+execute, prepare+execute_update, prepare+bind+execute, get_schema, poll_flight_info, statements inside a transaction, and every metadata / action / unsupported-command handler); the entry-point inventory is compared with the source on every run".into());
     report.write(&args.out);
 }
